@@ -110,3 +110,6 @@ Print Assumptions C08_bit_unpack_injective.
 Print Assumptions C08_bit_unpack_total.
 Print Assumptions C08_pairs_used.
 Print Assumptions C08_layout.
+(* T6: no conditional compilation inside the algorithm files (the hooks build runs the code users run) *)
+Require F204.Proofs.SourcePins.
+Check F204.Proofs.SourcePins.algorithm_files_have_no_cfg_gates.
